@@ -34,3 +34,48 @@ def resp_spec(responses, method="get", path="/op", opid="op"):
         rs[key] = r
     s["paths"][path] = {method: {"operationId": opid, "responses": rs}}
     return s
+
+
+def param_schema(t):
+    if t == "array":
+        return {"type": "array", "items": {"type": "string"}}
+    if t == "intarray":
+        return {"type": "array", "items": {"type": "integer"}}
+    if t == "enum":
+        return {"type": "string", "enum": ["a", "b"]}
+    return {"type": t}
+
+
+def op_spec(d):
+    """d: {method, path, params:[{name,in,level,type,required,style?,explode?}], body:{ct,kind,required}|None, responses?}"""
+    s = base_spec()
+    op = {"operationId": d.get("opid", "op"), "responses": {"200": {"description": "ok"}}}
+    item = {}
+    for p in d.get("params", []):
+        o = {"name": p["name"], "in": p["in"], "schema": param_schema(p.get("type", "string"))}
+        if p.get("required") or p["in"] == "path":
+            o["required"] = True
+        for k in ("style", "explode"):
+            if p.get(k) is not None:
+                o[k] = p[k]
+        if p.get("level") == "path":
+            item.setdefault("parameters", []).append(o)
+        else:
+            op.setdefault("parameters", []).append(o)
+    b = d.get("body")
+    if b:
+        content = {}
+        for ct, kind in b["content"]:
+            m = {}
+            sch = schema_of(kind)
+            if sch is not None:
+                m["schema"] = sch
+            content[ct] = m
+        op["requestBody"] = {"content": content}
+        if b.get("required"):
+            op["requestBody"]["required"] = True
+    if d.get("responses") is not None:
+        op["responses"] = d["responses"]
+    item[d["method"]] = op
+    s["paths"][d["path"]] = item
+    return s
